@@ -46,11 +46,35 @@ def check_lines(prog, rep):
         return
     seen_al = {}
     n_meas = 0
-    is_pos = lambda t: t[0] == "upvar" and t[2] == "position"
+    # the running position: the capture of the closure that lines() initialises with self.position (whatever the
+    # variable is called), or — for `scan(self.position, |position, line| ..)` — the state behind the first parameter
+    self_pos = ("field", ("param", 1, "self"), field_index(prog, TEXT, "position"))
+    carriers = []
+    scan = False
+    for n in walk(ro):
+        if n[0] == "call" and n[1].split("::")[-1] in ("map", "scan", "filter_map", "map_while") and any(x[0] == "agg" and x[1] == "closure:" + c.id for a_ in n[3] for x in walk(a_)):
+            cl = [x for a_ in n[3] for x in walk(a_) if x[0] == "agg" and x[1] == "closure:" + c.id][0]
+            for k, cap in enumerate(cl[2]):
+                if strip_refs(cap) == self_pos:
+                    carriers.append(("upvar", k))
+            if n[1].split("::")[-1] == "scan" and len(n[3]) == 3 and strip_refs(n[3][1]) == self_pos:
+                carriers.append(("param", 2))
+                scan = True
+    if len(carriers) != 1:
+        rep.fail("R15.1", "lines:shape", "the closure of lines() must carry one running position initialised with self.position (found %d)" % len(carriers), status="undecided", at=c.span, fn=c.path)
+        return
+    car = carriers[0]
+
+    def is_pos(t):
+        t = strip_refs(t)
+        return t[0] == car[0] and t[1] == car[1]
     one = ("call", "*Point::new", "_", (("const", 1), ("const", 0)))
     advance_bad = []
     for sm in summs:
-        m = match(sm.ret, ("agg", "tuple", ("?text", "?p")))
+        ret = sm.ret
+        if scan and ret[0] == "agg" and str(ret[1]).endswith("Option::Some") and ret[2]:
+            ret = ret[2][0]     # scan yields Some(item) for every split item
+        m = match(ret, ("agg", "tuple", ("?text", "?p")))
         if m is None:
             rep.fail("R15.1", "lines:shape", "closure must yield (text, position); yields %s" % show(sm.ret, maxd=4), status="undecided", at=c.span, fn=c.path)
             return
@@ -90,12 +114,12 @@ def check_lines(prog, rep):
         ws = sm.writes()
         # the advance is Text::line_height(self), or — where that private helper has been inlined — its body
         # saturating_as(text_style.line_height.to_absolute(character_style.line_height()))
-        pos_y = ("field", ("upvar", "_", "position"), 1)
+        is_pos_y = lambda t: strip_refs(t)[0] == "field" and strip_refs(t)[2] == 1 and is_pos(strip_refs(t)[1])
         adv = None
-        if len(sm.effects) == 1 and len(ws) == 1 and match(ws[0][1], pos_y) is not None:
+        if len(sm.effects) == 1 and len(ws) == 1 and is_pos_y(ws[0][1]):
             v = fold(ws[0][2])
-            m1 = match(v, ("bin", "Add", pos_y, "?adv")) or match(v, ("bin", "Add", "?adv", pos_y))
-            adv = m1["?adv"] if m1 is not None else None
+            if v[0] == "bin" and v[1] == "Add" and (is_pos_y(v[2]) or is_pos_y(v[3])):
+                adv = v[3] if is_pos_y(v[2]) else v[2]
         okw = adv is not None and (match(adv, ("call", "*Text::<'a, S>::line_height", "_", ("?s",))) is not None or match(adv, ("call", "*::line_height", "_", (("upvar", "_", "self"),))) is not None
                                    or match(adv, ("call", "*SaturatingAs>::saturating_as", "_", (("call", "*LineHeight::to_absolute", "_", (("field", ("field", ("upvar", "_", "self"), field_index(prog, TEXT, "text_style")), field_index(prog, "embedded_graphics::text::text_style::TextStyle", "line_height")),
                                                                                                                                            ("call", "*::line_height", "_", (("field", ("upvar", "_", "self"), field_index(prog, TEXT, "character_style")),)))),))) is not None)
@@ -113,11 +137,19 @@ def check_lines(prog, rep):
 
 
 def check_baseline(prog, rep):
-    bo = prog.method1(STYLE, "baseline_offset", None)
+    # the helper may live on the style (today) or on the font it reads (moved by a refactoring)
+    bos = [f for f in prog.fns.values() if f.body and f.name == "baseline_offset" and f.kind == "assoc_fn" and f.impl and not prog.impls[f.impl].get("trait")
+           and isinstance(prog.impls[f.impl]["self_ty"], dict) and prog.impls[f.impl]["self_ty"].get("adt") in (STYLE, MONOFONT)]
+    if len(bos) != 1:
+        rep.fail("R15.2", "baseline", "anchor lost: %d functions named baseline_offset on MonoTextStyle / MonoFont" % len(bos), status="undecided")
+        return
+    bo = bos[0]
+    on_font = prog.impls[bo.impl]["self_ty"].get("adt") == MONOFONT
     bl = variants(prog, "embedded_graphics::text::Baseline")
     fi = lambda n: field_index(prog, STYLE, n)
     ff = lambda n: field_index(prog, MONOFONT, n)
-    font = ("field", ("param", 1, "self"), fi("font"))
+    font = ("param", 1, "self") if on_font else ("field", ("param", 1, "self"), fi("font"))
+    recv = ("field", ("param", 1, "self"), fi("font")) if on_font else ("param", 1, "self")   # the receiver at the call sites in the style
     H = ("field", ("field", font, ff("character_size")), 1)
     sat = lambda x: ("call", "*SaturatingAs>::saturating_as", "_", (x,))
     hm1 = ("call", "*::saturating_sub", "_", (H, ("const", 1)))
@@ -134,8 +166,17 @@ def check_baseline(prog, rep):
                   at=bo.span, fn=bo.path)
     rep.sample({"rule": "R15.2", "baseline_table": {k: show(v) for k, v in table.items() if k}})
 
-    # R15.3 symmetry
-    off = ("call", "*Point::new", "_", (("const", 0), ("call", "*::baseline_offset", "_", (("param", 1, "self"), "?bl"))))
+    # R15.3 symmetry: the same offset o = baseline_offset(baseline) is subtracted from the incoming position and added back
+    # to the returned one.  o is the call of the helper, or (where an edit moved / inlined it) a tree over self and the
+    # baseline parameter only; that it is the *right* table is R15.2.
+    offp = ("call", "*Point::new", "_", (("const", 0), "?o"))
+
+    def is_offset(o, bl_i):
+        o = strip_refs(o)
+        if match(o, ("call", "*::baseline_offset", "_", ("_", ("param", bl_i, "baseline")))) is not None:
+            return True
+        leaves = {n[1] for n in walk(o) if n[0] == "param"}
+        return bool(leaves) and leaves <= {1, bl_i} and not any(n[0] == "call" and n[1].split("::")[-1] == "baseline_offset" for n in walk(o))
     for nm, pos_i, bl_i in (("draw_string", 3, 4), ("draw_whitespace", 3, 4)):
         f = prog.method1(STYLE, nm, TR)
         cfg = CFG(f.body)
@@ -149,18 +190,16 @@ def check_baseline(prog, rep):
             if m is None:
                 continue  # error propagation paths
             n_ok += 1
-            mm = match(m["?p"], ("call", "*Add>::add", "_", ("?inner", off)))
-            good = mm is not None and mm["?bl"] == ("param", bl_i, "baseline")
+            mm = match(m["?p"], ("call", "*Add>::add", "_", ("?inner", offp)))
+            good = mm is not None and is_offset(mm["?o"], bl_i)
             if good:
-                # the inner position derives from the baseline-adjusted position (position - offset)
-                adj = [n for n in walk(mm["?inner"]) if match(n, ("call", "*Sub>::sub", "_", (("param", pos_i, "position"), off))) is not None]
+                # the inner position derives from the baseline-adjusted position (position - offset), same offset
+                adj = [n for n in walk(mm["?inner"]) if match(n, ("call", "*Sub>::sub", "_", (("param", pos_i, "position"), offp)), {"?o": mm["?o"]}) is not None]
                 good = bool(adj)
-                if nm == "draw_whitespace":
-                    mw = match(mm["?inner"], ("call", "*Add>::add", "_", ("?adj", ("call", "*Point::new", "_", ("?w", "?o2")))))
             if not good:
                 # draw_whitespace: position + Point::new(width, baseline_offset) — offset added back inside one Point
-                mw = match(m["?p"], ("call", "*Add>::add", "_", ("?adj", ("call", "*Point::new", "_", ("?w", ("call", "*::baseline_offset", "_", (("param", 1, "self"), ("param", bl_i, "baseline"))))))))
-                good = mw is not None and match(mw["?adj"], ("call", "*Sub>::sub", "_", (("param", pos_i, "position"), off))) is not None
+                mw = match(m["?p"], ("call", "*Add>::add", "_", ("?adj", ("call", "*Point::new", "_", ("?w", "?o")))))
+                good = mw is not None and is_offset(mw["?o"], bl_i) and match(mw["?adj"], ("call", "*Sub>::sub", "_", (("param", pos_i, "position"), offp)), {"?o": mw["?o"]}) is not None
             if not good:
                 bad.append(show(m["?p"], maxd=6))
         rep.check(not bad and n_ok >= 1, "R15.3", nm + ":add-back",
@@ -170,7 +209,8 @@ def check_baseline(prog, rep):
     for lits, ret, path in decisions(ms):
         r = strip_refs(ret)
         m = match(r, ("agg", "*TextMetrics::TextMetrics", (("call", "*Rectangle::new", "_", ("?bp", "?size")), "?next")))
-        good = m is not None and match(m["?bp"], ("call", "*Sub>::sub", "_", (("param", 3, "position"), off))) is not None \
+        mo = match(m["?bp"], ("call", "*Sub>::sub", "_", (("param", 3, "position"), offp))) if m is not None else None
+        good = m is not None and mo is not None and is_offset(mo["?o"], 4) \
             and match(m["?next"], ("call", "*::add", "_", (("param", 3, "position"), ("call", "*Size::x_axis", "_", (m["?size"],))))) is not None
         rep.check(good, "R15.3", "measure_string:positions", "measure_string must box the text at position - (0, baseline_offset) and predict next_position = position + (width, 0); found %s" % show(r, maxd=5),
                   at=ms.span, fn=ms.path)
@@ -213,21 +253,24 @@ def check_target_independence(prog, rep):
     path that does not end in a target error, `target` occurs only (a) as an argument of drawing calls, (b) in the test
     that such a call succeeded, (c) inside the returned payload of a renderer call that is itself under this rule."""
     from mirq.paths import show_fact
-    fns = [("draw_string_binary", prog.method1(STYLE, "draw_string_binary", None)),
+    # the private glyph-run helper is analysed by itself while it exists under its reference name; a renamed / split one
+    # is new to the tree and is inlined into draw_string's summaries
+    dsb = [f for f in prog.fns.values() if f.body and f.name == "draw_string_binary" and f.kind == "assoc_fn" and f.impl and prog.impls[f.impl]["self_ty"].get("adt") == STYLE]
+    fns = [("draw_string_binary", f) for f in dsb[:1]] + [
            ("draw_string", prog.method1(STYLE, "draw_string", TR)),
            ("draw_whitespace", prog.method1(STYLE, "draw_whitespace", TR)),
            ("Text::draw", prog.method1(TEXT, "draw", "embedded_graphics_core::drawable::Drawable"))]
     RENDER = ("draw_string", "draw_whitespace", "draw_string_binary")
     P_ = Paths(prog, inline=lambda g: prog.is_new(g), loops="once")
-    work = list(fns)
+    work = [(a_, b_, ()) for a_, b_ in fns]
     done = set()
     while work:
-        nm, f = work.pop(0)
+        nm, f, tidx = work.pop(0)
         if f.id in done:
             continue
         done.add(f.id)
-        is_t = lambda n: n[0] in ("param", "upvar") and len(n) > 2 and n[2] == "target"
-        if f.kind != "closure" and not any(l.get("name") == "target" for l in f.body["locals"][:f.body["argc"] + 1]):
+        is_t = lambda n, tidx=tidx: n[0] in ("param", "upvar") and len(n) > 2 and (n[2] == "target" or (n[0] == "param" and n[1] in tidx))
+        if f.kind != "closure" and not tidx and not any(l.get("name") == "target" for l in f.body["locals"][:f.body["argc"] + 1]):
             rep.check(False, "R15.5", "target-independent:" + nm, "anchor lost: no `target` parameter", status="undecided", at=f.span, fn=f.path)
             continue
 
@@ -240,6 +283,14 @@ def check_target_independence(prog, rep):
                     return True
                 if allow_payload and t[0] == "payload" and t[1][0] == "call" and t[1][1].split("::")[-1] in RENDER:
                     return False
+                if allow_payload and t[0] == "payload" and t[1][0] == "call":
+                    # a renderer helper that is new to the tree (renamed / split off) and could not be inlined (it loops):
+                    # its payload is allowed and the helper is put under this rule itself
+                    gs = [g for g in prog.by_path.get(t[1][1], []) if g.body and g.kind in ("fn", "assoc_fn") and prog.is_new(g)]
+                    ti = tuple(i + 1 for i, a_ in enumerate(t[1][3]) if any(is_t(y) for y in walk(a_)))
+                    if len(gs) == 1 and ti:
+                        work.append((gs[0].name, gs[0], ti))
+                        return False
                 return any(mentions(c, allow_payload) for c in t[1:])
             return any(mentions(c, allow_payload) for c in t)
         try:
@@ -263,7 +314,7 @@ def check_target_independence(prog, rep):
                     for c in cls:
                         g = prog.fns.get(c[1][len("closure:"):])
                         if g is not None and g.body:
-                            work.append((nm + ":closure", g))
+                            work.append((nm + ":closure", g, ()))
                     if cls and not any(mentions(a_, False) for a_ in r[3] if not (a_[0] == "agg" and str(a_[1]).startswith("closure:"))):
                         n += 1
                         continue
